@@ -1,11 +1,11 @@
 SPECIFICATION Spec
 CONSTANTS
   NU = 10
-  NS = 4
-  MaxN = 8
+  NS = 3
+  MaxN = 7
   Sub = 1
-  Ext = 10
-  ExtNs = {1, 2, 3, 4, 7}
+  Ext = 8
+  ExtNs = {1, 2, 3, 6}
   Algo = "arange_int"
 CONSTRAINT Export
 INVARIANT ImplCrop
